@@ -622,6 +622,11 @@ func TestVerifStorageState(t *testing.T) {
 					var er common.Hash
 					er[0], er[1], er[2], er[3] = byte(si), byte(b.ID), byte(b.ID>>8), byte(number)
 					hd := types.NewHeader(parent, root, er, number, vstPreDigest(true, uint64(number)+1))
+					if int(number)%3 == 0 {
+						// the state is already tracked by the Tries cache when it is stored (as the genesis state is after
+						// Tries.SetTrie): StoreTrie still has to write it
+						ss.tries.SetTrie(ts.Trie())
+					}
 					if err := ss.StoreTrie(ts, hd); err != nil {
 						fail("C04", "err", "nil", err.Error(), "Commit/StoreTrie/"+comm.class()+"/error")
 						return
